@@ -40,6 +40,7 @@ THEOREMS = ["JanetModel.Props.C09." + t for t in (
     "asm_disasm_def", "asm_slotcount_covers", "asm_slotcount_le", "asm_slotcount_eq", "asm_disasm_def_tight",   # asm . disasm at funcdef level: slot count, janet_verify
     "asm_disasm_instr", "asm_disasm_bytecode",                                           # asm . disasm on instruction words / bytecode arrays
     "fiber_flags_no_wire_bits",                                                          # unmarshalled fiber flags carry no image-only bit
+    "abstract_depth_roundtrip", "abstract_depth_accept_converse", "abstract_depth_symmetric", "abstract_hook_roundtrip_at_depth",   # depth along marshal_one -> hook context -> janet_marshal_janet
     "abstract_hook_roundtrip", "int64_hooks_paired", "int64_box_roundtrip", "channel_hooks_paired", "channel_roundtrip", "peg_hooks_paired", "peg_roundtrip",  # abstract hook protocol
 )]
 
@@ -47,6 +48,7 @@ CODE_OBLIGATIONS = ["JanetModel.Marsh.CodeObligations." + t for t in (
     "code_depths_match_model", "unmarshal_never_deeper", "def_field_order", "flag_bits",   # Code.lean vs the current marsh.c
     "hook_calls_match_model",                                                              # Abstract.lean vs inttypes.c / ev.c hooks
     "fiber_wire_bits_stripped", "marshal_leaves_frames_unchanged",                         # image-only fiber / frame bits never live in memory
+    "abstract_depths_match_model", "abstract_depth_increments_equal", "abstract_nesting_roundtrips",   # both JanetMarshalContext initialisers are `flags + k`, same k
 )]
 
 def _name_obligation(msg):
@@ -544,6 +546,107 @@ def function_depth(ctx, hxc, exe, guard, code_cases, lo=None, hi=None):
     return out
 
 
+ABSDEEP_SRC = """(defn wrap [n x] (var v x) (repeat n (set v @[v])) v)
+(defn hold [x] %s)
+(var v :leaf)
+(repeat %d (set v (hold (wrap %d v))))
+(def x (wrap %d v))
+(def [mok b] (protect (marshal x)))
+(if-not mok
+  (print "ok marshal raised: " b)
+  (let [[uok y] (protect (unmarshal b))]
+    (if uok
+      (print "ok marshalled " (length b) " bytes and unmarshalled them")
+      (print "FAIL marshal produced " (length b) " bytes for %d %s nested through their payloads, unmarshal rejects them: " y))))
+"""
+
+
+def abstract_depth_cases(ctx, guard, quick):
+    """(kind, a, i, k): `a` arrays around `k` abstracts, each holding the next one inside `i` arrays; total depth of the leaf is
+    a + k * (2 + i).  Around the guard for every offset, far beyond it, and seeded random ones"""
+    cases = []
+    for kind in ("peg", "chan"):
+        for i in (0, 1, 2):
+            per = 2 + i
+            for a in (0, 1, 2):
+                kb = (guard - a) // per
+                for k in range(max(1, kb - 2), kb + 3):
+                    cases.append((kind, a, i, k))
+        for k in (1, 2, 7, guard // 2 + 50, guard - 1, guard, guard + 1, 2 * guard + 1, 3 * guard):
+            cases.append((kind, ctx.rng.below(3), 0, k))
+        cases.append((kind, 0, 1, guard))
+        for _ in range(12 if quick else 200):
+            i = ctx.rng.below(4)
+            a = ctx.rng.below(40)
+            kb = max(1, (guard - a) // (2 + i))
+            k = max(1, kb + ctx.rng.range(-3, 3)) if ctx.rng.chance(3, 4) else ctx.rng.range(1, 3 * guard)
+            cases.append((kind, a, i, k))
+    seen, out = set(), []
+    for c in cases:
+        if c not in seen:
+            seen.add(c)
+            out.append(c)
+    return out
+
+
+def abstract_depth(ctx, janet, exe, guard, quick, cases=None):
+    """recursion-depth boundary for values nested through abstract payloads (compiled PEG holding a PEG constant, channel holding
+    a channel): direct oracle marshal ok => unmarshal ok and same nesting; correspondence with Marsh/AbsDepth.lean (increments
+    of both sides regenerated) on accept / reject of both directions"""
+    cases = abstract_depth_cases(ctx, guard, quick) if cases is None else cases
+    out = {"stats": {"cases": len(cases), "marshal_ok": 0, "marshal_stack_overflow": 0, "unmarshal_ok": 0, "deepest_ok": 0, "shallowest_rejected": None,
+                     "by_kind": {}, "model_diffs": 0}, "violations": [], "broken": []}
+    st = out["stats"]
+    rows = {}
+    pending = list(cases)
+    while pending:
+        args = [str(x) for c in pending for x in c]
+        rc, o, err = run_cmd([janet, os.path.join(H, "absdeep.janet")] + args, timeout=900, env=ENV)
+        got = [l for l in o.decode(errors="replace").splitlines() if l.startswith("absdeep ")]
+        for c, l in zip(pending, got):
+            rows[c] = l
+        if len(got) >= len(pending):
+            break
+        bad = pending[len(got)]              # the process died (or printed nothing) in this case
+        rows[bad] = "absdeep %s %d %d %d crashed rc=%r %s" % (bad + (rc, err.decode(errors="replace")[-400:].replace("\n", " ")))
+        pending = pending[len(got) + 1:]
+    mo = ctx.model(["absdepth %d %d %d" % c[1:] for c in cases], exe=exe) if exe else []
+    for n, c in enumerate(cases):
+        kind, a, i, k = c
+        w = rows[c].split()
+        depth = a + k * (2 + i)
+        src = ABSDEEP_SRC % ("(peg/compile (tuple 'constant x))" if kind == "peg" else "(let [c (ev/chan 1)] (ev/give c x) c)", k, i, a, k,
+                             "compiled PEGs" if kind == "peg" else "channels")
+        rep = {"kind": "janet", "signature": "abstract-depth-roundtrip", "source": src, "case": list(c), "line": rows[c][:600]}
+        if "crashed" in w[5:6]:
+            out["violations"].append(("abstract-depth-crash", dict(rep, signature="abstract-depth-crash"),
+                                      "marshal / unmarshal of %d %s nested through their payloads took the process down: %s" % (k, kind, rows[c][:300])))
+            continue
+        mok, uok, sok = w[6] == "ok", w[8] == "ok", w[10] == "ok"
+        st["by_kind"][kind] = st["by_kind"].get(kind, 0) + 1
+        if mok:
+            st["marshal_ok"] += 1
+            st["deepest_ok"] = max(st["deepest_ok"], depth)
+            st["unmarshal_ok"] += 1 if uok else 0
+            if not uok or not sok:
+                out["violations"].append(("abstract-depth-roundtrip", rep,
+                                          "%d %s nested through their payloads (%d arrays outside, %d between) are marshalled, but %s: %s"
+                                          % (k, "compiled PEGs" if kind == "peg" else "channels", a, i,
+                                             "unmarshal rejects the bytes" if not uok else "the copy has a different nesting", rows[c][:300])))
+        else:
+            if "stack overflow" in rows[c]:
+                st["marshal_stack_overflow"] += 1
+            st["shallowest_rejected"] = depth if st["shallowest_rejected"] is None else min(st["shallowest_rejected"], depth)
+        if mo:
+            mm = mo[n].split()
+            if len(mm) != 2 or (mm[0] == "ok") != mok or (mok and (mm[1] == "ok") != uok):
+                st["model_diffs"] += 1
+                if st["model_diffs"] <= 3:
+                    out["broken"].append("recursion depth boundary through abstract payloads: %s a=%d i=%d k=%d implementation `%s`, model (marshalD unmarshalD) `%s`"
+                                         % (kind, a, i, k, " ".join(w[5:11]), mo[n]))
+    return out
+
+
 def run(ctx):
     quick = ctx.tier == "quick"
     broken = []
@@ -831,6 +934,14 @@ def run(ctx):
         if rc != 0 or len(dl) != hi - lo + 1:
             violations.append(("deep-crash", {"kind": "deep", "rc": rc, "stderr": err.decode(errors="replace")[-2000:]}, "marshal of deeply nested arrays crashed"))
         stats["depth_boundary"] = deep
+        # (D4b) the same boundary for values nested through abstract payloads (PEG constants, queued channel items)
+        ad = abstract_depth(ctx, janet, exe, guard, quick)
+        stats["abstract_depth_boundary"] = ad["stats"]
+        violations += ad["violations"][:3]
+        for b in ad["broken"]:
+            broken.append(b)
+            ctx.broken.append(b)
+        ctx.say("abstract depth boundary: %r" % ad["stats"])
 
         # (D6) value graphs with code objects: functions, funcdefs (sharing through seen_defs), closure environments
         # (sharing through seen_envs, detached and early-detach), model Marsh/Code.lean vs real marshal / unmarshal
